@@ -2,4 +2,5 @@ import LJT.Props.C19
 import LJT.Props.C20
 import LJT.Props.C13
 import LJT.Props.C16
+import LJT.Props.C02
 import LJT.Ops.C19
